@@ -43,7 +43,7 @@ def mir_for(crate):
         # prune old dumps (keep the 6 newest trees)
         root = os.path.join(CACHE, 'mir')
         ds = sorted((os.path.getmtime(os.path.join(root, x)), x) for x in os.listdir(root))
-        for _, x in ds[:-6]:
+        for _, x in ds[:-24]:
             shutil.rmtree(os.path.join(root, x), ignore_errors=True)
     return out
 
